@@ -272,6 +272,28 @@ fn kernel_pool(amp: u64, decs: &[u8], res: &[u128]) -> mantra_dex_std::pool_mana
     }
 }
 
+/// KF-C02-c: the imbalance fee takes a dust reserve to zero and D of the fee-adjusted balances
+/// (one of them zero) comes out too high: the deposit is minted ~10% more than its share
+pub fn c02_c() -> (bool, String) {
+    let decs = [18u8, 6, 6, 8];
+    let old = [2_487_941_491_770u128, 5_523, 7_861, 1];
+    let new = [2_491_734_151_810u128, 5_524, 7_863, 1];
+    let amp = 1_000_000_000_000u64;
+    let supply = 1_000_000_000_000_000u128;
+    let mut info = kernel_pool(amp, &decs, &old);
+    info.pool_fees = pool_fee(0, 500, 0, &[]);
+    let o: Vec<cosmwasm_std::Coin> = info.assets.clone();
+    let n: Vec<cosmwasm_std::Coin> = info.asset_denoms.iter().zip(new.iter()).map(|(d, r)| coin(*r, d.clone())).collect();
+    let minted = match pool_manager::helpers::compute_lp_mint_amount_for_stableswap_deposit(&amp, &o, &n, cosmwasm_std::Uint128::new(supply), &info) {
+        Ok(Some(m)) => m.u128(),
+        other => return (false, format!("the deposit is refused: {other:?}")),
+    };
+    let d0 = crate::exact::SsState::new(amp, &old, &decs, 0).d_floor();
+    let d1 = crate::exact::SsState::new(amp, &new, &decs, 0).d_floor();
+    let allowed = num_bigint::BigInt::from(supply) * (&d1 + 2 - (&d0 - 2)) / (&d0 - 2);
+    (num_bigint::BigInt::from(minted) > allowed, format!("amp 1e12, 5% swap fee, reserves [2.49e12 udai-like(18), 5523 (6), 7861 (6), 1 (8)], supply 1e15: a deposit of [3792660040, 1, 2, 0] is minted {minted} LP, its share of the exact invariant growth is {allowed}"))
+}
+
 /// KF-C19-a: whole-token stopping rule of the swap-path D
 pub fn c19_a() -> (bool, String) {
     let res = [28_650_975u128, 88_156_848_568_115_536];
@@ -303,7 +325,7 @@ pub fn c19_d() -> (bool, String) {
 
 pub fn run_pinned(property: &str, rep: &mut Reporter) {
     let list: Vec<(&str, fn() -> (bool, String))> = match property {
-        "C02" => vec![("KF-C02-a", c02_a)],
+        "C02" => vec![("KF-C02-a", c02_a), ("KF-C02-c", c02_c)],
         "C03" => vec![("KF-C03-a", c03_a)],
         "C06" => vec![("KF-C06-a", c06_a), ("KF-C10-a", c10_a)],
         "C07" => vec![("KF-C07-a", c07_a)],
@@ -342,6 +364,7 @@ pub fn all() -> Vec<(&'static str, fn() -> (bool, String))> {
         ("KF-C19-d", c19_d),
         ("KF-C16-a", c16_a),
         ("KF-C11-b", c11_b),
+        ("KF-C02-c", c02_c),
     ]
 }
 
